@@ -44,7 +44,6 @@ def _setup_twin():
     from ..symstr import Rewrite, EXTRA_BUILTINS, SStr
     eb = dict(EXTRA_BUILTINS)
     eb["open"] = fopen
-    eb["hash"] = lambda x: 0 if isinstance(x, SStr) else hash(x)
     T = Twin(fakes=mods, ast_transformers=[Rewrite()], extra_builtins=eb)
     A = T.mod("panoptica.panoptica_aggregator")
     counter = AC.OpCounter()
@@ -59,9 +58,9 @@ def _initial_rows(init, header):
     if init >= 2:
         rows.append(list(header))
     if init >= 3:
-        rows.append(["s1", fsmodel.NumCell(1)])
+        rows.append(["s1", fsmodel.NumCell(1), fsmodel.NumCell(0.5)])
     if init >= 4:
-        rows.append(["s2", fsmodel.NumCell(2)])
+        rows.append(["s2", fsmodel.NumCell(2), ""])
     return rows
 
 
@@ -74,14 +73,16 @@ def _model_oracle(rows, subjects):
     if rows is None:
         return "output_file_exists"
     heads = [i for i, r in enumerate(rows) if r and _same_name(r[0], AC.HEADER_CELL)]
-    if heads != [0] or len(rows[0]) != 2 or not _same_name(rows[0][1], "g-tp"):
+    if heads != [0] or len(rows[0]) != 3 or not _same_name(rows[0][1], "g-tp") or not _same_name(rows[0][2], "g-sq"):
         return "header_exactly_once_first"
     for idx, s in enumerate(subjects):
         mine = [r for r in rows[1:] if r and _same_name(r[0], s)]
         if len(mine) != 1:
             return "one_row_per_subject"
         v = mine[0][1].value if isinstance(mine[0][1], fsmodel.NumCell) else mine[0][1]
-        if len(mine[0]) != 2 or str(v) != str(idx + 1):
+        sqc = mine[0][2] if len(mine[0]) == 3 else None
+        sq_ok = (isinstance(sqc, fsmodel.NumCell) and sqc.value == 0.5) if (idx + 1) % 2 == 1 else sqc == ""
+        if len(mine[0]) != 3 or str(v) != str(idx + 1) or not sq_ok:
             return "rows_complete_and_equal_to_uninterrupted_run"
     if [r for r in rows[1:] if not r or not any(_same_name(r[0], s) for s in subjects)]:
         return "no_foreign_rows"
@@ -148,7 +149,7 @@ def run_case(case):
             names.extend(subjects)
             if symbolic_name:
                 names[0] = mk(name_ch)
-            rows = _initial_rows(init, [AC.HEADER_CELL, "g-tp"])
+            rows = _initial_rows(init, [AC.HEADER_CELL, "g-tp", "g-sq"])
             if rows is not None:
                 fs.files[OUT] = rows
             killed = False
@@ -174,7 +175,7 @@ def run_case(case):
         return explore_case(h, body, base=base, const_hash=True, time_budget=3000)
 
     # ---- neighbouring aggregators in one directory
-    OA, OB = "/d/a.tsv", "/d/b.tsv"
+    OA, OB = "/d/scores.fold1.tsv", "/d/scores.fold2.tsv"      # sibling outputs whose names share everything up to the first dot
     nsteps = 2 + 2 * nsub
     ch = [z3.Int("step%d" % i) for i in range(nsteps)]
     base = [z3.And(c >= 0, c <= 1) for c in ch]
@@ -237,7 +238,7 @@ def real_crash(case, mode, expect):
         init = case["init"]
         if init >= 1:
             with open(out, "w", encoding="utf8", newline="") as f:
-                rows = ([["subject_name", "g-tp"]] if init >= 2 else []) + ([["s1", "1"]] if init >= 3 else []) + ([["s2", "2"]] if init >= 4 else [])
+                rows = ([["subject_name", "g-tp", "g-sq"]] if init >= 2 else []) + ([["s1", "1", "0.5"]] if init >= 3 else []) + ([["s2", "2", ""]] if init >= 4 else [])
                 f.write("".join("\t".join(r) + "\n" for r in rows))
         vals = {s: i + 1 for i, s in enumerate(subjects)}
         rc1, o1 = _child({"out": out, "subjects": subjects, "values": vals, "crash_at": case["crash_at"]})
@@ -263,7 +264,7 @@ def real_siblings(case, mode, expect):
     from panoptica import Panoptica_Aggregator
     tmp = tempfile.mkdtemp(prefix="pv_c17s_")
     subjects = case["subjects"]
-    paths = {"A": os.path.join(tmp, "a.tsv"), "B": os.path.join(tmp, "b.tsv")}
+    paths = {"A": os.path.join(tmp, "scores.fold1.tsv"), "B": os.path.join(tmp, "scores.fold2.tsv")}
     try:
         aggs, evs = {}, {}
         todo = {"A": ["ctor"] + list(subjects), "B": ["ctor"] + list(subjects)}
